@@ -5,7 +5,7 @@
   entry is popped only when its deadline has passed); promptness (how late a time-out fires) is measured, never asserted.
 
   Model: `Model/Io.lean` (`run (init co) sched`: every schedule of callers, kernel tails, selector / timer-handler / canceller
-  threads and the environment). Three parts of the property are FALSE of the pinned tree; they are not modelled away: the model
+  threads and the environment). Two parts of the property are FALSE of the pinned tree; they are not modelled away: the model
   contains the behaviour, the negation is proved with a concrete schedule (`…_witness`), the same history is reproduced on the
   real code by a live scenario family, and a minimal fix is proposed:
     * `io_cancel_leaves_timer_armed_witness` – `CancelIoImpl::cancel` does not disarm the io timer of the operation it interrupts;
@@ -13,10 +13,11 @@
       (live family `io_cancel_shared`; pending_fixes/io-cancel-disarm-timer.patch);
     * `io_timeout_lost_witness` – `subscribe` arms the timer before it publishes the coroutine; a timer that fires in between is
       lost and the operation blocks for ever (live family `io_timeout_race`; pending_fixes/io-timeout-arm-before-publish.patch;
-      this is the io twin of DESIGN §7 F6);
-    * F2 (owned by wp-time, stated here for the io path in `io_timeout_truncation_f2`): `AtomicDuration` truncates to whole
-      milliseconds, a sub-millisecond time-out is stored as "none". The scenarios use whole-ms time-outs >= 1 ms and
-      `io_timeout_not_early` states that hypothesis explicitly.
+      this is the io twin of DESIGN §7 F6).
+  F2 (owned by wp-time: `AtomicDuration` truncated to whole milliseconds and stored a sub-millisecond time-out as "none") has been
+  fixed in /repo; `io_timeout_not_early` is about the fixed, rounding-up conversion and holds for every duration,
+  `io_timeout_truncation_f2` records what the truncating conversion did. The scenarios use whole and non-integral milliseconds
+  (sub-millisecond ones in the race family).
 -/
 import MayVerif.Proof.Io.Step
 import MayVerif.Proof.Io.Timer
@@ -25,16 +26,19 @@ namespace MayVerif.Io
 
 /-! ### time-outs are not early -/
 
-/-- **Deadline arithmetic, ns → ms → ns.** A configured time-out of a whole number of milliseconds, at least 1 ms, survives
-    `AtomicDuration::store` (`as_millis`, truncating) and `get` (`from_millis`) unchanged; the timer armed at `t0` has deadline
-    `t0 + cfg`, the handler pops it only when `deadline ≤ now`, and the epoll wait that precedes the pop
-    (`ns.div_ceil(1_000_000)` ms) is never shorter than the remaining time. -/
-theorem io_timeout_not_early (cfg t0 now : Nat) (hwhole : cfg % 1000000 = 0) (hmin : 1000000 ≤ cfg)
-    (hfire : t0 + msToNs (durToMs cfg) ≤ now) :
-    msToNs (durToMs cfg) = cfg ∧ durToMs cfg ≠ 0 ∧ t0 + cfg ≤ now ∧
+/-- **Deadline arithmetic, ns → ms → ns, for EVERY configured time-out** (sub-millisecond, non-integral milliseconds, seconds).
+    `AtomicDuration::store` rounds up to whole milliseconds, at least 1 (`durToMs`; F2 is fixed in /repo), `get` gives
+    `from_millis`; the timer armed at `t0` has deadline `t0 + msToNs ms`, the handler pops it only when `deadline ≤ now`: the
+    time-out is never stored as "none", never fires before the configured duration, is late by less than 1 ms of rounding (plus
+    scheduling, which is measured, not asserted) and is exact for whole milliseconds >= 1 ms; the epoll wait that precedes the
+    pop (`ns.div_ceil(1_000_000)` ms) is never shorter than the remaining time. -/
+theorem io_timeout_not_early (cfg t0 now : Nat) (hfire : t0 + msToNs (durToMs cfg) ≤ now) :
+    durToMs cfg ≠ 0 ∧ t0 + cfg ≤ now ∧ cfg ≤ msToNs (durToMs cfg) ∧
+    (1000000 ≤ cfg → msToNs (durToMs cfg) < cfg + 1000000) ∧
+    (cfg % 1000000 = 0 → 1000000 ≤ cfg → msToNs (durToMs cfg) = cfg) ∧
     ∀ remaining, remaining ≤ ((remaining + 999999) / 1000000) * 1000000 := by
   unfold msToNs durToMs at *
-  refine ⟨by omega, by omega, by omega, fun r => by omega⟩
+  refine ⟨by omega, by omega, by omega, fun _ => by omega, fun _ _ => by omega, fun r => by omega⟩
 
 /-- the same in the model, for every schedule: a caller whose pending result is TimedOut was timed out by a timer entry `t` that
     was armed at `armedAt t` with the time-out `tdur t` – a positive whole number of milliseconds, the value the subscribing
@@ -61,13 +65,14 @@ theorem io_timer_fires_after_deadline (st st' : St) (w : Wk) (t : Tm) (hs : step
   · assumption
   · contradiction
 
-/-- **F2 on the io path** (defect of the pinned tree, owned by wp-time): what `AtomicDuration` does to the other time-outs. A
-    sub-millisecond time-out is stored as 0 = "no time-out" (the operation waits for ever); a non-integral number of
-    milliseconds is truncated, so the timer is armed with LESS than the configured duration (it fires early). -/
+/-- **F2 on the io path, before its fix** (DESIGN §7 F2, fixed in /repo by "AtomicDuration must round time-outs up …"): what the
+    truncating conversion `d.as_millis()` did to a socket time-out. A sub-millisecond time-out was stored as 0 = "no time-out"
+    (the read waited for ever); a non-integral number of milliseconds was truncated, so the timer was armed with LESS than the
+    configured duration (it fired early). `io_timeout_not_early` is the statement for the fixed conversion. -/
 theorem io_timeout_truncation_f2 (cfg : Nat) :
-    (cfg < 1000000 → durToMs cfg = 0) ∧
-    (cfg % 1000000 ≠ 0 → msToNs (durToMs cfg) < cfg) := by
-  unfold msToNs durToMs
+    (cfg < 1000000 → durToMsTrunc cfg = 0) ∧
+    (cfg % 1000000 ≠ 0 → msToNs (durToMsTrunc cfg) < cfg) := by
+  unfold msToNs durToMsTrunc
   exact ⟨fun h => by omega, fun h => by omega⟩
 
 /-! ### whoever wins `co.take` decides -/
